@@ -55,6 +55,7 @@ type Fn struct {
 	Dur      []int64  `json:"dur"`
 	Callback bool     `json:"callback"`
 	Info     bool     `json:"info"`
+	ErrPos   *int     `json:"err_pos"` // position of the error result among the results (default: last)
 	Pool     *int     `json:"pool"` // use the declared function P<pool> instead of a reflect.MakeFunc value
 }
 
@@ -382,7 +383,7 @@ func (r *runner) makeFunc(f *Fn, role string) reflect.Value {
 		out = append(out, resultType(rs, dec))
 	}
 	if f.Err {
-		out = append(out, errType)
+		out = insertAt(out, errPos(f), errType)
 	}
 	ft := reflect.FuncOf(in, out, f.Variadic)
 	return reflect.MakeFunc(ft, func(args []reflect.Value) []reflect.Value {
@@ -421,14 +422,28 @@ func (r *runner) body(f *Fn, role string, args []reflect.Value) []reflect.Value 
 			res = append(res, mkResult(rs, dec, f.ID, e, lens, &slot))
 		}
 		if f.Err {
+			ev := reflect.Zero(errType)
 			if plan == "err" {
-				res = append(res, reflect.ValueOf(&UserErr{f.ID, e}).Convert(errType))
-			} else {
-				res = append(res, reflect.Zero(errType))
+				ev = reflect.ValueOf(&UserErr{f.ID, e}).Convert(errType)
 			}
+			res = insertAt(res, errPos(f), ev)
 		}
 		return res
 	}
+}
+
+func errPos(f *Fn) int {
+	if f.ErrPos != nil && *f.ErrPos >= 0 && *f.ErrPos <= len(f.Results) {
+		return *f.ErrPos
+	}
+	return len(f.Results)
+}
+
+func insertAt[T any](l []T, i int, x T) []T {
+	out := make([]T, 0, len(l)+1)
+	out = append(out, l[:i]...)
+	out = append(out, x)
+	return append(out, l[i:]...)
 }
 
 // ---------- declared functions (pool_gen.go) ----------
